@@ -3,3 +3,14 @@ import Norad.Props.C03
 #print axioms Layers.save_no_panic_partial
 #print axioms Layers.save_no_panic_counterexample
 #print axioms C11.end_path_unreachable_arm
+#print axioms C07.fileName_none_iff_100_rejections
+#print axioms C07.backoff_steps_le_3
+#print axioms C13.validate_never_panics
+#print axioms C13.saveInfo_never_panics
+#print axioms C13.loadInfo_never_panics
+#print axioms Kern.upconvert_no_panic_decimal
+#print axioms Kern.upconvertWith_total
+#print axioms C18.glue_never_panics
+#print axioms C18.glue_never_panics_value
+#print axioms C18.glue_never_panics_counterexample
+#print axioms C20.toKurbo_succeeds
